@@ -95,6 +95,10 @@ void Scheduler::RunLoop() {
       AdvanceTime();
     }
     WakeUpNeeded();
+    if (_queue.Empty()) {
+      // only stale (already emptied) sleep list entries were left
+      continue;
+    }
     auto* next = GetNext();
     sCurrent = next;
     TickTime();
@@ -140,8 +144,7 @@ void Scheduler::SleepPreemptive(std::uint64_t ns) {
   // <= because wakeup called before time adjustment
   if (_time <= ns) {
     auto it = _sleep_list.find(ns);
-    YACLIB_DEBUG(it == _sleep_list.end(), "sleep_list for time that is not passed yet isn't found");
-    if (it->second.Empty()) {
+    if (it != _sleep_list.end() && it->second.Empty()) {
       _sleep_list.erase(ns);
     }
   }
